@@ -333,13 +333,15 @@ func (e *Engine) typeInv(T types.Type, x Term) Term {
 			}
 		}
 		if t.Info()&types.IsString != 0 {
-			return And(Ge(StrLen(x), IntLit(0)), Ge(StrOff(x), IntLit(0)))
+			// lengths are bounded by the address space (2^56 is generous on every supported platform)
+			return And(Ge(StrLen(x), IntLit(0)), Ge(StrOff(x), IntLit(0)), Le(StrLen(x), Term{"72057594037927936", SInt}))
 		}
 		return TTrue
 	case *types.Pointer, *types.Map, *types.Chan:
 		return Ge(x, IntLit(0))
 	case *types.Slice:
 		return And(Ge(SlRef(x), IntLit(0)), Ge(SlOff(x), IntLit(0)), Ge(SlLen(x), IntLit(0)), Le(SlLen(x), SlCap(x)),
+			Le(SlCap(x), Term{"72057594037927936", SInt}),
 			Implies(Eq(SlRef(x), IntLit(0)), Eq(SlCap(x), IntLit(0))))
 	case *types.Struct:
 		var cs []Term
